@@ -12,6 +12,9 @@ Verdict(r) ==
   ELSE IF "crash" \in DOMAIN r THEN "bad"
   ELSE IF ~Sane(r.a) THEN "skip"
   ELSE IF ~Sane(r.r) THEN "bad"
+  (* a conversion of a calendar instant yields a calendar instant: equal seconds are not enough, the 29th of *)
+  (* February of an ordinary year counts as many seconds as the 1st of March and is no date                  *)
+  ELSE IF ~(ValidDate(r.r[1], r.r[2], r.r[3]) /\ r.r[4] \in 0..23 /\ r.r[5] \in 0..59 /\ r.r[6] \in 0..59) THEN "bad"
   ELSE LET z == Tr[r.z] a == Ep(r.a) IN
     CASE r.e = "ToLoc" ->
            IF Ep(r.r) = UTCToLocal(z, a) /\ r.off = OffAt(z, a) THEN "ok" ELSE "bad"
